@@ -25,6 +25,10 @@ Proof.
   apply Z.leb_le in H1. apply Z.leb_le in H2. split; [reflexivity|]. split; [exact Eu|]. lia.
 Qed.
 
+(** the regenerated form of environment.Script._verify is the one [wordy] models *)
+Lemma script_form_ok : script_verify_form = script_form_expected.
+Proof. vm_compute. reflexivity. Qed.
+
 Lemma priority_enum_nonempty : priority_enum <> [].
 Proof. vm_compute. discriminate. Qed.
 
